@@ -1,12 +1,12 @@
 SPECIFICATION Spec
 CONSTANTS
-  Versions <- DeferVersions
-  Cmds <- DeferCmds
-  ArgSets <- ArgSetsDefer
+  Versions <- PlatVersions
+  Cmds <- PlatCmds
+  ArgSets <- ArgSetsPlat
   HdrPorts <- Ports16
   HdrChans <- Chans4
-  PlatPackets <- NoPlat
-  Links <- LinksBoth
+  PlatPackets <- PlatAll
+  Links <- LinksNow
   Cap = 1
   Chained = FALSE
   Bug = "none"
@@ -14,4 +14,5 @@ INVARIANT EmissionsOK
 INVARIANT HeadersOK
 INVARIANT RepresentableIsSent
 INVARIANT TypeOK
+INVARIANT VersionKept
 CHECK_DEADLOCK FALSE
